@@ -969,6 +969,10 @@ def check_tables(tier, rng, okx):
     rng = section_rng("softmax")
     from ethosu.vela.softmax import SoftMax
     sm = [(1.0, 0.05), (1.0, 1 / 256), (1.0, 0.1), (2.0, 0.03), (0.5, 0.2), (1.0, 1.0)]
+    # pinned, 'sharp' softmax: beta * input_scale * 2^26 in [2^30, 2^31) is left shift 31 = Vela shift exactly 0 (the edge of
+    # quantise_scale's valid range), [2^29, 2^30) is Vela shift 1, above 2^31 - 1 the scale is clamped (again shift 0)
+    sm += [(100.0, 0.2), (16.0, 1.0), (31.99, 1.0), (20.0, 1.0), (15.999, 1.0), (8.0, 1.0), (12.0, 1.0), (64.0, 1.0), (200.0, 0.5),
+           (32.0, 0.5), (7.999, 1.0)]
     sm += [(rng.choice([1.0, 1.0, 0.25, 4.0]), rand_scale(rng, -9, 1)) for _ in range(6 * n)]
     for beta, si in sm:
         key = {"table": "softmax_exp", "beta": beta, "ifm_scale": float(f32(si))}
@@ -994,7 +998,10 @@ def check_tables(tier, rng, okx):
             i = next(j for j in range(256) if j >= len(got) or got[j] != want[j])
             out["viol"].setdefault(("softmax_exp", "value"), (dict(table="softmax_exp", failure="value"),
                                                              dict(key, index=i, observed=got[i] if i < len(got) else None, required=want[i]),
-                                                             "softmax exp table entry %d differs from the gemmlowp exp_on_negative_values pipeline" % i))
+                                                             "softmax exp table (beta %r, input scale %r; reference multiplier %d, left shift %d): entry %d is %s, the "
+                                                             "gemmlowp exp_on_negative_values pipeline gives %d (%d of 256 entries differ)" % (
+                                                                 beta, float(f32(si)), m, ls, i, got[i] if i < len(got) else None, want[i],
+                                                                 sum(1 for j in range(256) if j >= len(got) or got[j] != want[j]))))
     out["dist"]["softmax_exp_tables"] = len(sm)
     return out
 
